@@ -240,6 +240,13 @@ func (e *Env) index(x Val, i Val) Val {
 			return Val{T: at.Elem(), K: kindOf(at.Elem()), S: sel(arr.S, i.S)}
 		}
 	case KMap:
+		if v, present, ok := e.vc.concreteLookup(x, i); ok && e.st != e.old {
+			if present {
+				return v
+			}
+			_, vt, _, _ := e.vc.mapComps(x.T)
+			return e.vc.zeroVal(vt)
+		}
 		return e.vc.mapLookupPure(e.st, x, i)
 	}
 	sfail("cannot index value of kind %d", x.K)
@@ -792,6 +799,12 @@ func (e *Env) evalCall(n *ECall) Val {
 		}
 		if _, _, _, ok := vc.mapComps(m.T); !ok {
 			sfail("map type %s unsupported", m.T)
+		}
+		if _, present, ok := vc.concreteLookup(m, k); ok && e.st != e.old {
+			if present {
+				return boolVal("true")
+			}
+			return boolVal("false")
 		}
 		return boolVal(and(not(eq(m.S, "0")), vc.mapHas(e.st, m, k)))
 	case "callres":
